@@ -11,7 +11,7 @@
 use crate::rng::{self, Rng};
 use crate::sched::{self, SimCfg, Strategy};
 use crate::sendable::Sendable;
-use crate::tracked::{self, T24, Zst};
+use crate::tracked::{self, Big, T24, Zst};
 use crate::{RunResult, alloc, viol};
 use roto::{Context, Ctx, FileTree, List, NoCtx, Package, RotoString, Runtime, TypedFunc, Val, Verdict, library};
 use serde::{Deserialize, Serialize};
@@ -48,7 +48,7 @@ pub struct ConcDesc {
     pub schedule: Option<Vec<u8>>,
 }
 
-pub const FN_NAMES: [&str; 15] = ["a1", "s1", "o1", "r1", "e1", "l1", "l2", "c1", "h1", "re1", "fm", "sb1", "cx", "cs", "b1"];
+pub const FN_NAMES: [&str; 17] = ["a1", "s1", "o1", "r1", "e1", "l1", "l2", "c1", "h1", "re1", "fm", "sb1", "cx", "cs", "b1", "g1", "fm2"];
 
 /// Context type of the second runtime: every call brings its own context.
 #[derive(Clone, Context)]
@@ -149,6 +149,22 @@ fn main_runtime() -> Runtime<NoCtx> {
         fn log(x: u64) {
             host("log", x);
         }
+        #[clone] type Bg = Val<Big>;
+        fn mkbig(x: u64) -> Val<Big> {
+            host("mkbig", x);
+            Val(Big::new(x))
+        }
+        fn bigval(b: Val<Big>) -> u64 {
+            let p = match b.0.checked_payload() {
+                Ok(p) => p,
+                Err(e) => {
+                    viol::record("stale-read", format!("host function bigval() received a damaged 1104-byte value: {e}"));
+                    0
+                }
+            };
+            host("bigval", p);
+            p
+        }
         fn reenter(x: u64) -> u64 {
             host("reenter", x);
             let f = { REENTER.lock().unwrap().clone() };
@@ -248,6 +264,16 @@ fn b1(a: String, x: u64) -> String {{
     let n = t.chars().len();
     t + ":" + x.to_string() + ":" + n.to_string() + ":" + CS.to_lowercase()
 }}
+fn g1(x: u64) -> u64 {{
+    let b = mkbig(x + 800);
+    let c = b;
+    log(x);
+    let d = if x % 2 == 0 {{ c }} else {{ mkbig(x + 900) }};
+    bigval(b) + bigval(d) + bigval(c)
+}}
+filtermap fm2(x: u64) {{
+    if x > {p2} {{ accept "big" }} else {{ reject x + 1 }}
+}}
 fn sb1(a: String, x: u64) -> String {{
     let b = StringBuf.new();
     b.push_string(a);
@@ -267,6 +293,7 @@ pub enum Fx {
     V(TypedFunc<NoCtx, fn(u64) -> Verdict<u64, ()>>),
     CU(TypedFunc<Ctx<CallCtx>, fn(u64) -> u64>),
     CS(TypedFunc<Ctx<CallCtx>, fn(u64) -> RotoString>),
+    V2(TypedFunc<NoCtx, fn(u64) -> Verdict<RotoString, u64>>),
 }
 
 impl Fx {
@@ -291,6 +318,13 @@ impl Fx {
                 Verdict::Accept(v) => CallRes::Verd(Some(v)),
                 Verdict::Reject(()) => CallRes::Verd(None),
             },
+            Fx::V2(f) => match f.call(x) {
+                Verdict::Accept(v) => {
+                    let s: &str = v.as_ref();
+                    CallRes::Text(format!("accept:{s}"))
+                }
+                Verdict::Reject(n) => CallRes::Verd(Some(n)),
+            },
             Fx::CU(f) => {
                 let mut c = CallCtx { base: 1000 + x % 7, tag: Val(T24::new(600 + x % 5)), name: RotoString::from(format!("n{}", x % 3)) };
                 CallRes::Num(f.call(&mut c, x))
@@ -311,7 +345,8 @@ fn load(pkg: &mut Package<NoCtx>, pkg2: &mut Package<Ctx<CallCtx>>) -> Result<Ve
         let fx = match i {
             12 => pkg2.get_function(n).map(Fx::CU).map_err(|e| e.to_string()),
             13 => pkg2.get_function(n).map(Fx::CS).map_err(|e| e.to_string()),
-            0 | 5 | 7 | 8 | 9 => pkg.get_function(n).map(Fx::U).map_err(|e| e.to_string()),
+            0 | 5 | 7 | 8 | 9 | 15 => pkg.get_function(n).map(Fx::U).map_err(|e| e.to_string()),
+            16 => pkg.get_function(n).map(Fx::V2).map_err(|e| e.to_string()),
             3 | 4 | 6 => pkg.get_function(n).map(Fx::TU).map_err(|e| e.to_string()),
             1 | 11 | 14 => pkg.get_function(n).map(Fx::S).map_err(|e| e.to_string()),
             2 => pkg.get_function(n).map(Fx::O).map_err(|e| e.to_string()),
@@ -535,7 +570,7 @@ fn cold_thread(t: usize, variant: u64, x: u64) {
     // on the variant: nothing process-wide may remember a signature check by function name
     let same_sig = if variant == 0 { "fn same(x: u64) -> u64 { x + 1 }" } else { "fn same(x: u32) -> u32 { x + 2 }" };
     let src = format!(
-        "fn f{t}(x: u64) -> u64 {{ x + {t} }}\nfn g{t}(v: Tr, x: u64) -> u64 {{ val(v) + x }}\nfn h{t}(a: String, b: bool) -> String? {{ if b {{ Some(a) }} else {{ None }} }}\nfn l{t}(l: List[u64]) -> u64 {{ l.len() }}\nfn i{t}(x: i32) -> i32 {{ x }}\n{same_sig}\n"
+        "fn f{t}(x: u64) -> u64 {{ x + {t} }}\nfn g{t}(v: Tr, x: u64) -> u64 {{ val(v) + x }}\nfn h{t}(a: String, b: bool) -> String? {{ if b {{ Some(a) }} else {{ None }} }}\nfn l{t}(l: List[u64]) -> u64 {{ l.len() }}\nfn i{t}(x: i32) -> i32 {{ x }}\nfn o{t}(x: u64) -> u64? {{ if x > 3 {{ Some(x) }} else {{ None }} }}\nfiltermap v{t}(x: u64) {{ if x > 3 {{ accept x }} else {{ reject }} }}\nfiltermap w{t}(x: u64) {{ if x > 3 {{ accept }} else {{ reject x }} }}\nfn ls{t}(a: String) -> List[String] {{ [a, a] }}\n{same_sig}\n"
     );
     let pkg = {
         let _cg = alloc::ModeGuard::new(alloc::MODE_COMPILE);
@@ -587,6 +622,20 @@ fn cold_thread(t: usize, variant: u64, x: u64) {
     check(&l, "fn(List<List<u64>>) -> u64", false, pkg.get_function::<fn(List<List<u64>>) -> u64>(&l).map(|_| None).map_err(|e| e.to_string()), None);
     check(&i, "fn(i32) -> i32", true, pkg.get_function::<fn(i32) -> i32>(&i).map(|k| Some(k.call(-5) as i64 as u64)).map_err(|e| e.to_string()), Some(-5i64 as u64));
     check(&i, "fn(u32) -> i32", false, pkg.get_function::<fn(u32) -> i32>(&i).map(|_| None).map_err(|e| e.to_string()), None);
+    let o = format!("o{t}");
+    let v = format!("v{t}");
+    let w = format!("w{t}");
+    let ls = format!("ls{t}");
+    check(&o, "fn(u64) -> Option<u64>", true, pkg.get_function::<fn(u64) -> Option<u64>>(&o).map(|k| Some(k.call(9).unwrap_or(0))).map_err(|e| e.to_string()), Some(9));
+    check(&o, "fn(u64) -> Option<u32>", false, pkg.get_function::<fn(u64) -> Option<u32>>(&o).map(|_| None).map_err(|e| e.to_string()), None);
+    check(&o, "fn(u64) -> Option<Option<u64>>", false, pkg.get_function::<fn(u64) -> Option<Option<u64>>>(&o).map(|_| None).map_err(|e| e.to_string()), None);
+    check(&v, "fn(u64) -> Verdict<u64, ()>", true, pkg.get_function::<fn(u64) -> Verdict<u64, ()>>(&v).map(|k| Some(match k.call(9) { Verdict::Accept(n) => n, Verdict::Reject(()) => 0 })).map_err(|e| e.to_string()), Some(9));
+    check(&v, "fn(u64) -> Verdict<(), u64>", false, pkg.get_function::<fn(u64) -> Verdict<(), u64>>(&v).map(|_| None).map_err(|e| e.to_string()), None);
+    check(&v, "fn(u64) -> Verdict<RotoString, ()>", false, pkg.get_function::<fn(u64) -> Verdict<RotoString, ()>>(&v).map(|_| None).map_err(|e| e.to_string()), None);
+    check(&w, "fn(u64) -> Verdict<(), u64>", true, pkg.get_function::<fn(u64) -> Verdict<(), u64>>(&w).map(|k| Some(match k.call(2) { Verdict::Accept(()) => 0, Verdict::Reject(n) => n })).map_err(|e| e.to_string()), Some(2));
+    check(&w, "fn(u64) -> Verdict<u64, ()>", false, pkg.get_function::<fn(u64) -> Verdict<u64, ()>>(&w).map(|_| None).map_err(|e| e.to_string()), None);
+    check(&ls, "fn(RotoString) -> List<RotoString>", true, pkg.get_function::<fn(RotoString) -> List<RotoString>>(&ls).map(|k| { let l = k.call("q".into()); let n = l.len() as u64; drop(l); Some(n) }).map_err(|e| e.to_string()), Some(2));
+    check(&ls, "fn(RotoString) -> List<u64>", false, pkg.get_function::<fn(RotoString) -> List<u64>>(&ls).map(|_| None).map_err(|e| e.to_string()), None);
     check("same", "fn(u64) -> u64", variant == 0, pkg.get_function::<fn(u64) -> u64>("same").map(|k| Some(k.call(x))).map_err(|e| e.to_string()), Some(x + 1));
     check("same", "fn(u32) -> u32", variant != 0, pkg.get_function::<fn(u32) -> u32>("same").map(|k| Some(k.call(7) as u64)).map_err(|e| e.to_string()), Some(9));
     check("nope", "fn(u64) -> u64", false, pkg.get_function::<fn(u64) -> u64>("nope").map(|_| None).map_err(|e| e.to_string()), None);
@@ -605,6 +654,9 @@ pub fn execute(d: &ConcDesc, keep_trace: bool) -> RunResult {
     }
     IN_CALL.store(0, SeqCst);
     *REENTER.lock().unwrap() = None;
+    // swarm knob: in one run of three freed JIT pages are handed out again instead of quarantined
+    let page_reuse = crate::rng::derive(d.run_seed, &[crate::rng::label("page-reuse")]) % 3 == 0;
+    alloc::PAGE_REUSE.store(page_reuse, SeqCst);
     let mut res = RunResult::default();
     let mut out = sched::SimOutcome::default();
     let mut n_calls = 0u64;
@@ -924,6 +976,8 @@ pub fn execute(d: &ConcDesc, keep_trace: bool) -> RunResult {
     res.decisions = out.decisions.clone();
     let c = &mut res.counters;
     c.insert("runs".into(), 1);
+    c.insert("knob_page_reuse_runs".into(), page_reuse as u64);
+    c.insert("pages_reused".into(), alloc::ST_PAGE_REUSED.load(std::sync::atomic::Ordering::Relaxed));
     c.insert(format!("scenario_{}", d.scenario), 1);
     c.insert("steps".into(), out.steps);
     c.insert("switches".into(), out.switches);
